@@ -50,7 +50,7 @@ Definition closers : list nat :=
 
 Definition hstartb (id : nat) : bool :=
   known id && negb (existsb (Nat.eqb id) closers) &&
-  (String.eqb (ge_left (entd false id)) "" || is_infix id).
+  (String.eqb (ge_left (entd false id)) "" || Nat.eqb id TokenMINUS || Nat.eqb id TokenPLUS).
 
 Definition expr_start (id : nat) : bool :=
   is_term id || is_ident id || is_prefix id || (id =? TokenLPAREN).
@@ -115,15 +115,24 @@ Proof.
   - intros Hq. rewrite Hq in Hln. rewrite lbrack_binding in Hln. destruct Hln as [Hln|Hln]; [lia|discriminate].
 Qed.
 
-Lemma hstart_sep id v a ln ln' : hstartb id = true -> safe_start id = true -> ln < ln' -> sepT ln (tk ln' id v a).
+Definition cont_id (id : nat) : bool := Nat.eqb id TokenMINUS || Nat.eqb id TokenPLUS || Nat.eqb id TokenLPAREN.
+
+Lemma continues_head id v a r : continues (Printer.T id v a :: r) = cont_id id.
+Proof. reflexivity. Qed.
+
+(* a statement start that is not + - ( cannot continue the previous line *)
+Lemma hstart_sep id v a ln ln' : hstartb id = true -> cont_id id = false -> ln < ln' -> sepT ln (tk ln' id v a).
 Proof.
-  unfold hstartb, safe_start. rewrite !andb_true_iff, !negb_true_iff. intros [[K C] L] [S1 S2] Hlt.
-  rewrite S1, orb_false_r in L. apply String.eqb_eq in L.
+  unfold hstartb, cont_id. rewrite !andb_true_iff, !negb_true_iff, !orb_false_iff. intros [[K C] L] [[S0 S1] S2] Hlt.
+  rewrite S0, S1, !orb_false_r in L. apply String.eqb_eq in L.
   unfold sepT. cbn [tk t_id t_line]. apply Nat.eqb_neq in S2.
   assert (Hc : forall x, In x closers -> id <> x).
   { intros x Hx ->. assert (existsb (Nat.eqb x) closers = true) by (apply existsb_exists; exists x; split; [exact Hx | apply Nat.eqb_refl]). congruence. }
   repeat split; try assumption; try (apply Hc; unfold closers; simpl; tauto). left; exact Hlt.
 Qed.
+
+Lemma semi_sep ln ln' : ln < ln' -> sepT ln (tk ln' TokenSEMICOLON [] false).
+Proof. intros H. unfold sepT. cbn [tk t_id t_line]. repeat split; try discriminate; try (vm_compute; reflexivity). left; exact H. Qed.
 
 Lemma rbrace_sep ln ln' : ln < ln' -> sepT ln (tk ln' TokenRBRACE [] false).
 Proof. intros H. unfold sepT. cbn [tk t_id t_line]. repeat split; try discriminate; try (vm_compute; reflexivity). left; exact H. Qed.
